@@ -1,4 +1,32 @@
 package main
 
+import (
+	"strings"
+
+	"golang.org/x/tools/go/ssa"
+)
+
 func registerExtra(e *Engine) {
+	I := e.intrinsics
+	// strings functions on concrete arguments
+	str2bool := func(f func(a, b string) bool) Intrinsic {
+		return func(x *Exec, caller *frame, fn *ssa.Function, args []Value) Value {
+			return x.ctx.Bool(f(x.concreteStr(args[0], "string arg of "+fn.String()), x.concreteStr(args[1], "string arg of "+fn.String())))
+		}
+	}
+	I["strings.Contains"] = str2bool(strings.Contains)
+	I["strings.HasPrefix"] = str2bool(strings.HasPrefix)
+	I["strings.HasSuffix"] = str2bool(strings.HasSuffix)
+	I["strings.EqualFold"] = str2bool(strings.EqualFold)
+	str2str := func(f func(a string) string) Intrinsic {
+		return func(x *Exec, caller *frame, fn *ssa.Function, args []Value) Value {
+			return x.strConst(f(x.concreteStr(args[0], "string arg of "+fn.String())))
+		}
+	}
+	I["strings.ToLower"] = str2str(strings.ToLower)
+	I["strings.ToUpper"] = str2str(strings.ToUpper)
+	I["strings.TrimSpace"] = str2str(strings.TrimSpace)
+	I["strings.Index"] = func(x *Exec, caller *frame, fn *ssa.Function, args []Value) Value {
+		return x.intTerm(strings.Index(x.concreteStr(args[0], "strings.Index"), x.concreteStr(args[1], "strings.Index")))
+	}
 }
